@@ -241,7 +241,12 @@ def gotran_to_myokit(ode: ODE, time_component="engine", time_unit="s") -> myokit
         return unit.replace("**", "^")
 
     # First we need to add all variables to the model
-    global_var_map = {sp.Symbol("time"): sp.Symbol(f"{time_component}.time")}
+    # Map the name of each variable to its qualified name in the myokit model. The symbols
+    # are replaced by name, since symbols with the same name are different sympy objects when
+    # their assumptions differ (models loaded from .ode files have real symbols, and both t
+    # and time refer to the time variable)
+    time_symbol = sp.Symbol(f"{time_component}.time")
+    global_var_map = {"time": time_symbol, "t": time_symbol}
     for component in ode.components:
         if component.name == time_component:
             comp = model[time_component]
@@ -252,18 +257,27 @@ def gotran_to_myokit(ode: ODE, time_component="engine", time_unit="s") -> myokit
             state = state_derivative.state
             var = comp.add_variable(state.name)
             var.set_unit(to_myokit_unit(state.unit_str))
-            global_var_map[sp.Symbol(state.name)] = sp.Symbol(var.qname())
+            global_var_map[state.name] = sp.Symbol(var.qname())
 
         for parameter in component.parameters:
             var = comp.add_variable(parameter.name)
             var.set_unit(to_myokit_unit(parameter.unit_str))
             var.set_rhs(parameter.value)
-            global_var_map[sp.Symbol(parameter.name)] = sp.Symbol(var.qname())
+            global_var_map[parameter.name] = sp.Symbol(var.qname())
 
         for intermediate in component.intermediates:
             var = comp.add_variable(intermediate.name)
             var.set_unit(to_myokit_unit(intermediate.unit_str))
-            global_var_map[sp.Symbol(intermediate.name)] = sp.Symbol(var.qname())
+            global_var_map[intermediate.name] = sp.Symbol(var.qname())
+
+    def to_myokit_names(expr: sp.Expr) -> sp.Expr:
+        return expr.xreplace(
+            {
+                symbol: global_var_map[symbol.name]
+                for symbol in expr.free_symbols
+                if symbol.name in global_var_map
+            }
+        )
 
     sympy_reader = myokit.formats.sympy.SymPyExpressionReader(model=model)
     # Then we can add expressions
@@ -274,14 +288,14 @@ def gotran_to_myokit(ode: ODE, time_component="engine", time_unit="s") -> myokit
             state = state_derivative.state
             v = comp[state.name]
 
-            expr = state_derivative.expr.xreplace(global_var_map)
+            expr = to_myokit_names(state_derivative.expr)
             expr = sympy_reader.ex(expr)
             v.set_rhs(expr)
             v.promote(state.value)
 
         for intermediate in component.intermediates:
             v = comp[intermediate.name]
-            expr = intermediate.expr.xreplace(global_var_map)
+            expr = to_myokit_names(intermediate.expr)
             expr = sympy_reader.ex(expr)
             v.set_rhs(expr)
 
